@@ -500,6 +500,13 @@ class _ConstantOnly(ValueError):
     pass
 
 
+def _unwrap_tensor(t: Any) -> Any:
+    """Tensor -> its array. Everything else is passed through so that NumPy
+    itself resolves it; in particular a Python scalar stays weakly-typed
+    (``float32_tensor == 0.1`` compares in float32, as it does for arrays)."""
+    return t.data if isinstance(t, Tensor) else t
+
+
 def _as_constant_array(t: Union["Tensor", np.ndarray]) -> np.ndarray:
     """Passes through all non-tensor objects and constant tensors. Raises on
     non-constant tensors."""
@@ -740,7 +747,7 @@ class Tensor:
 
         # non-differentiable ufuncs get called on numpy arrays stored by tensors
         if ufunc in _REGISTERED_BOOL_ONLY_UFUNC:
-            caster = asarray
+            caster = _unwrap_tensor
         elif ufunc in _REGISTERED_CONST_ONLY_UFUNC:
             # the presence of non-constant tensors will raise
             caster = _as_constant_array
@@ -2423,22 +2430,22 @@ class Tensor:
         return self._op(Tensor_Transpose_Property, self)
 
     def __eq__(self, other: ArrayLike) -> np.ndarray:
-        return np.ndarray.__eq__(self.data, asarray(other))
+        return np.ndarray.__eq__(self.data, _unwrap_tensor(other))
 
     def __ne__(self, other: ArrayLike) -> np.ndarray:
-        return np.ndarray.__ne__(self.data, asarray(other))
+        return np.ndarray.__ne__(self.data, _unwrap_tensor(other))
 
     def __lt__(self, other: ArrayLike) -> np.ndarray:
-        return np.ndarray.__lt__(self.data, asarray(other))
+        return np.ndarray.__lt__(self.data, _unwrap_tensor(other))
 
     def __le__(self, other: ArrayLike) -> np.ndarray:
-        return np.ndarray.__le__(self.data, asarray(other))
+        return np.ndarray.__le__(self.data, _unwrap_tensor(other))
 
     def __gt__(self, other: ArrayLike) -> np.ndarray:
-        return np.ndarray.__gt__(self.data, asarray(other))
+        return np.ndarray.__gt__(self.data, _unwrap_tensor(other))
 
     def __ge__(self, other: ArrayLike) -> np.ndarray:
-        return np.ndarray.__ge__(self.data, asarray(other))
+        return np.ndarray.__ge__(self.data, _unwrap_tensor(other))
 
     def __imatmul__(self, other):  # pragma: no cover
         raise TypeError(
